@@ -381,6 +381,16 @@ class Session:
             step = 1 + (a[0] + a[1]) % 3
             use_range = (a[0] % 2 == 0)
             rng_ = range(lo, hi, step) if use_range else list(range(lo, hi, step))
+            pos_ = list(range(lo, hi, step))
+            shape_ = (a[0] // 2 + a[1]) % 4
+            if not use_range and shape_ == 1:
+                pos_ = pos_[::-1]                      # positions listed backwards
+                rng_ = list(pos_)
+            elif not use_range and shape_ == 2:
+                pos_ = pos_ + [pos_[0]] + pos_[-1:]    # positions listed more than once (a resampling)
+                rng_ = list(pos_)
+            if shape_ in (1, 2) and not use_range:
+                ctx.probe('rows extracted by positions that are not increasing / not distinct')
             if a[2]:
                 rng_ = list(rng_)
                 bad = rng_ + [n + a[1] % 3]
@@ -389,8 +399,10 @@ class Session:
             else:
                 sub = self.db.extract_rows(rng_)
                 tags = self._rows_of(sub.data, 'extract_rows')
-                want = [r['tag'] for r in self.rows][lo:hi:step] if self.panel is None else None
-                cur = [float(t) for t in self.db.data['tag'].to_list()][lo:hi:step]
+                all_model = [r['tag'] for r in self.rows]
+                all_cur = [float(t) for t in self.db.data['tag'].to_list()]
+                want = [all_model[i_] for i_ in pos_] if self.panel is None else None
+                cur = [all_cur[i_] for i_ in pos_]
                 if tags != cur or (want is not None and tags != want):
                     ctx.fail('I13.extract', f'extract_rows({lo}..{hi - 1}) returned rows {tags}, positions hold {cur}')
                 # the extracted table is a table of its own: transforming it leaves the original intact (checked below
